@@ -22,6 +22,9 @@ let rx_parse (p : string) : regex option =
     let pos = ref 0 in
     let ci = ref false in
     while !pos + 4 <= n && String.sub p !pos 4 = "(?i)" do ci := true; pos := !pos + 4 done;
+    (* one non-capturing group around the whole rest, "(?:" body ")" with a paren-free body: same language as body *)
+    let n = if !pos + 4 <= n && String.sub p !pos 3 = "(?:" && p.[n - 1] = ')' && (n < 2 || p.[n - 2] <> '\\')
+      then (pos := !pos + 3; n - 1) else n in
     let alts = ref [] and cur = ref [] in
     let push it = cur := it :: !cur in
     while !pos < n do
